@@ -27,8 +27,8 @@
    The out-of-sample half (a different weather year) and the optimiser's slack s are sampled, not proved. *)
 From Coq Require Import Reals Lra List Bool Arith Lia.
 From Coq Require PrimFloat.
-From V Require Import Model.Num Model.NumR Model.NumF Model.DailyCurve Model.Recovery
-                      Proofs.DailyCurveProofs Proofs.RecoveryProofs.
+From V Require Import Model.Num Model.NumR Model.NumF Model.DailyCurve Model.DailyCurveRun Model.Recovery Model.RecoveryRun
+                      Model.CasesLib Proofs.DailyCurveProofs Proofs.RecoveryProofs.
 Import ListNotations.
 Local Open Scope R_scope.
 
@@ -391,5 +391,41 @@ Example ex_document_binary64 :
   = Some (gen_curve FNum ex_pf 40%float, gen_heat FNum ex_pf 40%float, gen_cool FNum ex_pf 40%float)
   /\ predict_submodel FNum (doc_of FNum ex_pf) ex_tcf 80%float
   = Some (gen_curve FNum ex_pf 80%float, gen_heat FNum ex_pf 80%float, gen_cool FNum ex_pf 80%float).
+Proof. vm_compute. split; reflexivity. Qed.
+
+(* the comparison functions harness/c15.py calls, on a toy fitted model that IS the generator: two baseline days, one
+   second-year day; every aggregate the harness would send is what the model computes, the verdicts are "holds" *)
+Definition toy_sub : RecoveryRun.sub := (doc_of FNum ex_pf, ex_tcf).
+Definition toy_base : list brow :=
+  [ (0%nat, 40%float, gen_curve FNum ex_pf 40%float, gen_curve FNum ex_pf 40%float, gen_heat FNum ex_pf 40%float, gen_cool FNum ex_pf 40%float);
+    (0%nat, 80%float, gen_curve FNum ex_pf 80%float, gen_curve FNum ex_pf 80%float, gen_heat FNum ex_pf 80%float, gen_cool FNum ex_pf 80%float) ].
+Definition toy_year2 : list yrow :=
+  [ (0%nat, 60%float, gen_curve FNum ex_pf 60%float, gen_heat FNum ex_pf 60%float, gen_cool FNum ex_pf 60%float) ].
+Definition toy_sent : sent :=
+  let y := map (fun r : brow => let '(_, _, y, _, _, _) := r in y) toy_base in
+  {| s_mse_in := 0; s_mean_in := mean FNum y; s_mse_out := 0; s_mean_out := gen_curve FNum ex_pf 60%float;
+     s_heat_in := gen_heat FNum ex_pf 40%float; s_cool_in := gen_cool FNum ex_pf 80%float; s_use_in := nsum FNum y;
+     s_heat_out := 0; s_cool_out := 0; s_use_out := gen_curve FNum ex_pf 60%float;
+     s_sse_fy := 0; s_sse_gy := 0;
+     s_nrmse_in_ok := true; s_nrmse_out_ok := true;
+     s_heat_in_ok := false; s_cool_in_ok := false; s_heat_out_ok := true; s_cool_out_ok := true |}.
+Example ex_check_fit : check_any (AFit (ex_pf, [toy_sub], toy_base, toy_year2, toy_sent)) = true.
+Proof. vm_compute. reflexivity. Qed.
+(* ... and it notices a wrong verdict and a wrong prediction *)
+Example ex_check_fit_rejects :
+  check_any (AFit (ex_pf, [toy_sub], toy_base, toy_year2,
+                   {| s_mse_in := 0; s_mean_in := s_mean_in toy_sent; s_mse_out := 0; s_mean_out := s_mean_out toy_sent;
+                      s_heat_in := s_heat_in toy_sent; s_cool_in := s_cool_in toy_sent; s_use_in := s_use_in toy_sent;
+                      s_heat_out := 0; s_cool_out := 0; s_use_out := s_use_out toy_sent; s_sse_fy := 0; s_sse_gy := 0;
+                      s_nrmse_in_ok := false; s_nrmse_out_ok := true;
+                      s_heat_in_ok := false; s_cool_in_ok := false; s_heat_out_ok := true; s_cool_out_ok := true |})) = false
+  /\ check_any (AFit (ex_pf, [toy_sub], (0%nat, 40%float, 30%float, 31%float, 0%float, 0%float) :: toy_base, toy_year2, toy_sent)) = false.
+Proof. vm_compute. split; reflexivity. Qed.
+(* the box of a cooling-only fit on five days, as Model/Recovery.v constructs it, and a narrowed intercept row *)
+Example ex_check_box :
+  check_any (AFinalBox (KC, 1%nat, [50; 60; 70; 80; 90]%float, [10; 10; 10; 20; 30]%float,
+                        [(60, 90); (0, 2); (10, 0x1.d99999999999ap+4)]%float)) = true
+  /\ check_any (AFinalBox (KC, 1%nat, [50; 60; 70; 80; 90]%float, [10; 10; 10; 20; 30]%float,
+                           [(60, 90); (0, 2); (10, 20)]%float)) = false.
 Proof. vm_compute. split; reflexivity. Qed.
 End Binary64.
